@@ -66,6 +66,10 @@ class ScriptedPolicy(pythia.Policy):
     for cell, v in (e.get('md') or {}).items():
       if v != 'None':
         ns, key = CELLS[cell]
+        if v == 'inc':
+          # a stateful algorithm: the next state is computed from the state the service handed to it with the request
+          cur = request.study_config.metadata.abs_ns(vz.Namespace.decode(ns)).get(key, None)
+          v = 'v2' if cur == 'v1' else 'v1'
         delta.on_study.abs_ns(vz.Namespace.decode(ns))[key] = v
     return pythia.SuggestDecision([vz.TrialSuggestion({'x': PARAMS[p]}) for p in e['ps']], delta)
 
